@@ -261,6 +261,61 @@ def run(ctx):
                     for cols in y["icolumns"]:
                         cl = [int(c) for c in cols]
                         add(f"WCols {pt} {nlist(cl)}", dict(inp, icolumns=cl), cl)
+    # ---- thresholds TUNED on the training data (threshold_scale=None): on constant or noise-level data rounding makes the score quantile
+    # ---- zero or slightly negative; the search must still terminate and report admissible detections only
+    from harness.timelimit import Hang, time_limit
+    from skchange.change_scores import CUSUM
+    consts = [3.7, 0.1, 1.0 / 3.0, 7.77, 1e5 + 0.3]
+    for it in range(ctx.n(36, 240)):
+        p = rng.choice([1, 1, 2])
+        c = consts[it % len(consts)]
+        lvl = rng.choice([0.5, 0.9, 0.99, 0.01])
+        mk_score = [("L2Cost", L2Cost), ("CUSUM", CUSUM), ("GaussianVarCost", GaussianVarCost)][it % 3]
+        for det in ("MovingWindow", "SeededBinarySegmentation", "CircularBinarySegmentation"):
+            m = rng.choice([1, 2, 3]) if mk_score[0] != "GaussianVarCost" else rng.choice([2, 3])
+            n = rng.choice([2 * m, 2 * m + 3, rng.randint(2 * m + 4, 60)])
+            Xn = np.full((n, p), c)
+            if it % 4 == 3:
+                Xn = Xn + np.asarray([[rng.gauss(0, 1e-9) for _ in range(p)] for _ in range(n)])     # noise at rounding level
+            X = pd.DataFrame(Xn)
+            inp = {"detector": det, "score": mk_score[0], "threshold_scale": None, "level": lvl, "n": n, "p": p, "data": "constant %r%s" % (c, " + 1e-9 noise" if it % 4 == 3 else ""),
+                   "X": Xn.tolist()}
+            try:
+                with time_limit(10):
+                    if det == "MovingWindow":
+                        inp["bandwidth"] = m
+                        d = MovingWindow(change_score=mk_score[1](), bandwidth=m, threshold_scale=None, level=lvl).fit(X)
+                    elif det == "SeededBinarySegmentation":
+                        inp["min_segment_length"] = m
+                        d = SeededBinarySegmentation(change_score=mk_score[1](), threshold_scale=None, level=lvl, min_segment_length=m).fit(X)
+                    else:
+                        if mk_score[0] == "CUSUM":
+                            continue
+                        inp["min_segment_length"] = m
+                        d = CircularBinarySegmentation(anomaly_score=mk_score[1](), threshold_scale=None, level=lvl, min_segment_length=m).fit(X)
+                    inp["threshold_"] = float(d.threshold_)
+                    y = d.predict(X)
+            except Hang as ex:
+                ctx.violation(f"{det}({mk_score[0]}, threshold_scale=None, level={lvl}) on constant data {c!r} (n={n}, p={p}): predict does not return ({ex}); "
+                              f"tuned threshold {inp.get('threshold_')}", inp, {"what": "hang", "detector": det})
+                continue
+            except Exception as ex:
+                ctx.violation(f"{det} raised {type(ex).__name__}: {str(ex)[:120]} on a valid input ({ {k: v for k, v in inp.items() if k != 'X'} })",
+                              inp, {"what": "exception", "detector": det, "cls": type(ex).__name__})
+                continue
+            ctx.count("tuned_threshold_sign", "negative" if d.threshold_ < 0 else ("zero" if d.threshold_ == 0 else "positive"))
+            if det == "CircularBinarySegmentation":
+                iv = [(int(l), int(r)) for l, r in zip(y["ilocs"].array.left, y["ilocs"].array.right)]
+                inp["anomalies"] = [list(t) for t in iv]
+                if not frame_ok_anoms(y):
+                    ctx.violation("CircularBinarySegmentation.predict: malformed frame", inp, {"what": "frame", "detector": det})
+                add(f"WCbs {m} {n} {pairs_nat(iv)}", inp, iv)
+            else:
+                cp = [int(v) for v in y["ilocs"]]
+                inp["changepoints"] = cp
+                if not frame_ok_cpts(y):
+                    ctx.violation(f"{det}.predict: malformed frame", inp, {"what": "frame", "detector": det})
+                add((f"WMw {m} {n} {nlist(cp)}" if det == "MovingWindow" else f"WCpts {m} {n} {nlist(cp)}"), inp, cp)
     bad = coq_bad_cases(ctx.cid, HEADER, "wf_case", "wf_ok", cases, shard=400)
     for i in bad[:40]:
         m = meta[i]
